@@ -6,7 +6,7 @@ From Coq Require Import ZArith QArith Qabs List Bool Sorted Lia.
 (* C05 (for the link theorems) first, C09 last: unqualified names are C09's, C05's are written qualified *)
 From PV Require Import C05.Model C05.Spec C05.Props Base.NpSort.
 From PV Require Import C09.Model C09.Spec C09.Proofs C09.Proofs2 C09.Proofs3 C09.Proofs4 C09.Proofs5.
-From PV Require Import C09.Spec2 C09.Proofs6 C09.Proofs7 C09.Link.
+From PV Require Import C09.Spec2 C09.Proofs6 C09.Proofs7 C09.Link C09.Spec3.
 Import ListNotations.
 Open Scope Z_scope.
 
@@ -426,3 +426,59 @@ Example C09_ex_periodic :     (* the period of C09_ex_depths, 7 spikes, batch si
   | _ => None
   end = Some (Some [Some (10 # 1); None; Some (30 # 1); Some (10 # 1); None; Some (30 # 1); Some (10 # 1)]%Q).
 Proof. vm_compute. reflexivity. Qed.
+
+(* =====================================================================================================
+   Stage 5: the guard "every id is below n_wav" of C09_spike_amps / C09_rescaled_peak is a condition on a value
+   the LOADER computes (self.n_clusters / self.n_templates), not on the dataset.  The statement's reading is the
+   model with n_wav = the number of stored waveforms (Spec3.full_ai): there the guard holds by the shape guard
+   alone, so the clauses hold for every id that has a stored waveform; and the guard is NEEDED -- with a loop
+   bound below the number of stored waveforms (e.g. the number of ids in use, when the ids in use have a gap)
+   the same code returns amplitude 0 for the spikes of the highest ids.  Corr.check_amp judges the observed
+   values against the full_ai instance and requires the loaded n_wav to be the number of stored waveforms.
+   ===================================================================================================== *)
+Theorem C09_full_guard : forall (i : amp_in), wf_amp (full_ai i) = true ->
+  (forall s, In s (ai_spikes (full_ai i)) -> s < ai_nwav (full_ai i)) /\ (forall n, (n < length (ai_data (full_ai i)))%nat -> Z.of_nat n < ai_nwav (full_ai i)).
+Proof.
+  intros i H. apply wf_amp_WF in H. split.
+  - intros s Hs. destruct (wf_spikes _ H s Hs) as [_ Hlt]. exact Hlt.
+  - intros n Hn. cbn [full_ai ai_nwav ai_data] in *. unfold zlen. lia.
+Qed.
+Print Assumptions C09_full_guard.
+
+(* the spike-amplitude clause with no hypothesis on the loader: whenever the loaded loop bound is the number of
+   stored waveforms (nwav_full_b, which the comparator checks on every loaded model) *)
+Theorem C09_spike_amps_full : forall (i : amp_in) (factor : Q) (o : amp_out QN),
+  nwav_full_b i = true ->
+  amplitudes_true_Q i (Some factor) = Some o ->
+  Spec_spike_amps i factor (ao_spike o).
+Proof.
+  intros i factor o Hn Ho. apply C09_spike_amps; [exact Ho|].
+  assert (Hwf : wf_amp i = true).
+  { unfold amplitudes_true_Q, amplitudes_true in Ho. destruct (wf_amp i); [reflexivity|discriminate]. }
+  apply wf_amp_WF in Hwf. intros s Hs. destruct (wf_spikes _ Hwf s Hs) as [_ Hlt].
+  unfold nwav_full_b in Hn. apply Z.eqb_eq in Hn. lia.
+Qed.
+Print Assumptions C09_spike_amps_full.
+
+(* ... and the guard is needed: three stored cluster waveforms, ids in use {0, 2} (id 1 has no spike), loop
+   bound 2 = the number of ids in use: the shape guard holds, nothing raises, and the spikes of cluster 2 get
+   amplitude 0 although the unwhitened waveform of cluster 2 has peak-to-peak 7 *)
+Definition ex_gap : amp_in :=
+  mk_amp_in [ [[1; 0]; [-2; 3]] ; [[0; 5]; [4; -1]] ; [[7; 7]; [7; 0]] ] [[1; 2]; [0; -1]] [2; 0; 2; 0] [2; 3; 4; 5] 2.
+Example C09_ex_guard_needed :
+  wf_amp ex_gap = true /\ ids_below_nwav_b ex_gap = false /\ nwav_full_b ex_gap = false /\ option_map (@ao_spike QN) (amplitudes_true_Q ex_gap (Some 1%Q)) =
+    Some [Some (inject_Z 0 * 1); Some (inject_Z 27 * 1); Some (inject_Z 0 * 1); Some (inject_Z 45 * 1)]%Q /\ option_map (@ao_spike QN) (amplitudes_true_Q (full_ai ex_gap) (Some 1%Q)) =
+    Some [Some (inject_Z 14 * 1); Some (inject_Z 27 * 1); Some (inject_Z 28 * 1); Some (inject_Z 45 * 1)]%Q /\ ~ Spec_spike_amps ex_gap 1 [Some (inject_Z 0 * 1); Some (inject_Z 27 * 1); Some (inject_Z 0 * 1); Some (inject_Z 45 * 1)]%Q.
+Proof.
+  refine (conj _ (conj _ (conj _ (conj _ (conj _ _))))); try (vm_compute; reflexivity).
+  intros [_ H]. destruct (H 0%nat 2 2 eq_refl eq_refl) as (t & au & q & Ht & Hpk & Hq & Heq).
+  cbn in Ht. injection Ht as <-. cbn in Hq. injection Hq as <-.
+  assert (Hau : au = 7).
+  { apply (IsPeakAmp_unique _ _ _ _ _ Hpk). cbn [ex_gap ai_wmi length].
+    exists [0; 7]. split.
+    - split; [reflexivity|]. intros c Hc. destruct c as [|[|c]]; [| |lia].
+      + exists 7, 7. repeat split; vm_compute; try tauto; intros x [<-|[<-|[]]]; discriminate.
+      + exists 14, 7. repeat split; vm_compute; try tauto; intros x [<-|[<-|[]]]; discriminate.
+    - split; [cbn; tauto|]. intros x [<-|[<-|[]]]; lia. }
+  subst au. vm_compute in Heq. discriminate.
+Qed.
